@@ -359,6 +359,7 @@ fn c13_exhaustive_items(maxn: usize) -> Vec<SeqCase> {
 						WorldSpec {
 							leaves: vec![LeafDecl { ty: LeafTy::R, wraps: 0 }; n],
 							colls: vec![CollSpec { kind, ctor: Ctor::TryNew, cont, content: Content::ByRef(perm.iter().map(|i| MemberSpec::Leaf(*i)).collect()), pois: false }],
+							layout: vec![],
 						},
 						n,
 					));
@@ -374,8 +375,7 @@ fn c13_exhaustive_items(maxn: usize) -> Vec<SeqCase> {
 							cont,
 							content: Content::ByVal((0..n).map(|_| OMemberSpec::Leaf(LeafDecl { ty: LeafTy::R, wraps: 0 })).collect()),
 							pois: false,
-						}],
-					},
+						}], layout: vec![] },
 					n,
 				));
 			}
@@ -442,7 +442,7 @@ fn c13_exhaustive_items(maxn: usize) -> Vec<SeqCase> {
 						steps.push((0, Step::Acquire { target: t, read, try_: true }));
 						steps.push((0, Step::Release { how: ReleaseHow::UnlockFn }));
 					}
-					items.push(SeqCase { world: WorldSpec { leaves: vec![LeafDecl { ty, wraps }], colls: vec![] }, nthreads: 1, steps, fault: None });
+					items.push(SeqCase { world: WorldSpec { leaves: vec![LeafDecl { ty, wraps }], colls: vec![], layout: vec![] }, nthreads: 1, steps, fault: None });
 				}
 			}
 		}
@@ -1241,6 +1241,7 @@ fn c07(tier: Tier, seed: u64) -> i32 {
 		let world = WorldSpec {
 			leaves: vec![LeafDecl { ty: LeafTy::R, wraps: 0 }; 4],
 			colls: vec![CollSpec { kind: *kind, ctor: Ctor::TryNew, cont: Cont::Vec, content: Content::ByRef(list.iter().map(|i| MemberSpec::Leaf(*i)).collect()), pois: false }],
+			layout: vec![],
 		};
 		let steps = use_every_collection(&world);
 		let case = SeqCase { world, nthreads: 1, steps, fault: None };
